@@ -161,6 +161,9 @@ def execute(sc, ctx):
     shape = []
     disturbed = False
     nontrivial = False
+    raw_snapshot = None
+    if init is not None:
+        raw_snapshot = (raw, [(k, id(v)) for k, v in raw.items()])
 
     def check_build(where, mutate="none", again=False):
         nonlocal nontrivial
@@ -220,6 +223,10 @@ def execute(sc, ctx):
                                                        for g, w in zip(second, want)),
                       "build-not-repeatable", f"{where}: a second build differs (after mutate={mutate})")
             ctx.check(not ({id(g) for g in second} & {id(g) for g in got}), "dicts-shared-between-builds", where)
+        # the dict handed to the constructor stays the caller's: declaring / removing parameters on the list never edits it
+        if raw_snapshot is not None:
+            ctx.check([(k, id(v)) for k, v in raw_snapshot[0].items()] == raw_snapshot[1], "constructor-dict-modified",
+                      lambda: f"{where}: the dict passed to ParameterList(...) now has keys {list(raw_snapshot[0])}")
         # the caller's value objects are never modified
         for obj, snap in inputs:
             same = (np.array_equal(obj, snap) if isinstance(obj, np.ndarray) else obj == snap)
